@@ -45,6 +45,9 @@ BUILT={
         "Every ordered pair (and every triple of a slice) of all well-typed terms up to the node bound plus their k/arity/leaf neighbours is compared through ==, cmp and hash against the harness's structural identity; descriptors, tap trees and policies likewise over an enumerated family. Exhaustive within the bound, nothing sampled.",
         "3 C19"),
 }
+BUILT["C20"]=("bounded-exhaustive term enumeration x translator family, structural walker as oracle",
+        "Every well-typed term up to the node bound in four contexts, a descriptor family covering every wrapping and tap trees, and policies are translated with identity / renaming / composed / failing-on-each-label / String->concrete / context-illegal translators; structure, types, scripts (against the reference encoder) and error kinds are compared with the harness model; iter_pk / for_each_key / for_any_key / Concrete::keys are compared with the key tokens of the string form.",
+        "3 C20")
 NA_REASON={}
 
 def hooks_commits():
